@@ -6,7 +6,7 @@
   the same predicates the oracle evaluates on the implementation's observations.
   Model: VrlModel/{Kind,KindOps,KindCrud}.lean. Helper lemmas: VrlProofs/Lemmas/Kind*.lean.
 -/
-import VrlProofs.Lemmas.KindMem
+import VrlProofs.Lemmas.KindGet
 
 namespace C19
 open Spec
@@ -15,5 +15,41 @@ open Spec
     which is what a `BTreeMap` holds; `C18.insert_sorted`/`remove_sorted` preserve it). -/
 theorem mem_kindOf (v : Value) (h : v.Sorted = true) : mem v v.kindOf = true :=
   Spec.mem_kindOf v h
+
+/-- **Reading is sound** (`at_path` and `get`), for every value, kind and path such that the path
+    does not meet an array kind with a known index that may be absent (class
+    `D_minlen_counts_optional`, witnessed) nor, at a negative index, an array kind of unknown length
+    (that case unions known kinds with `merge_keep`; see `union_sound_partial`).
+    Field segments, non-negative indices and negative indices into arrays of exactly known length are
+    covered without further condition, through any mixture of kinds (unions, unknown fields, json/any). -/
+theorem at_sound_partial (v : Value) (K : Kind) (p : Path) (hs : v.Sorted = true)
+    (h1 : anyOnPath optionalIdx K p = false) (h2 : anyOnPath negUnknown K p = false) :
+    atLawM v K p = true := by
+  unfold atLawM atLaw getLaw
+  cases hm : mem v K with
+  | false => rfl
+  | true =>
+    have h := Spec.atPath_sound p (some v) K hs hm h1 h2
+    have hg := Spec.mem_upgradeUndefined _ _ h
+    simp only [Value.get, Kind.get, Bool.not_true, Bool.false_or, Bool.and_eq_true]
+    exact ⟨h, hg⟩
+
+/-- paths made of fields and non-negative indices never meet `negUnknown`. -/
+theorem negUnknown_false_of_nonNeg : (p : Path) → (K : Kind) → Spec.nonNegPath p = true →
+    anyOnPath negUnknown K p = false
+  | [], _, _ => rfl
+  | s :: rest, K, h => by
+    simp only [Spec.nonNegPath, List.all_cons, Bool.and_eq_true] at h
+    simp only [anyOnPath, Bool.or_eq_false_iff]
+    refine ⟨?_, negUnknown_false_of_nonNeg rest _ h.2⟩
+    cases s with
+    | field f => simp [negUnknown]
+    | index i =>
+      have hi : ¬ i < 0 := by
+        have := h.1; simp [Spec.nonNegSeg] at this; omega
+      simp only [negUnknown]
+      cases K.array with
+      | none => rfl
+      | some c => simp [hi]
 
 end C19
